@@ -488,6 +488,11 @@ class MessageManager(interfaces.TokenInterface, interfaces.MessageManager):
                 " probably unintended; clearing it."
             )
             message.mid = None
+            if message.code.is_response():
+                # The type is left over from that earlier transmission as
+                # well (it was written into the object here); it is chosen
+                # anew like for any response.
+                message.mtype = None
 
         piggybacked_on = None
 
